@@ -352,3 +352,93 @@ def arm_sequences(fx, fn, enum_suffixes, role):
         if best is None or total > best[0]:
             best = (total, res)
     return best[1] if best else {}
+
+
+# ------------------------------------------------------------------ constant markers
+def writer_markers(fn):
+    """{c: (set of sequences after writing the one-byte constant c, opaque)} for write_u8(c)/push(c) sites"""
+    out = {}
+    eb = err_blocks(fn)
+    bl = buffer_locals(fn)
+    for b, c in fn.calls():
+        f = c["f"]
+        alias = c.get("st", "") or ""
+        last = f.rsplit("::", 1)[-1]
+        k = None
+        if (last == "write_u8" or alias.endswith("write_u8")) and len(c["a"]) >= 2:
+            k = op_const(c["a"][1])
+        elif last == "push" and len(c["a"]) >= 2 and "u8" in fn.ty(op_local(c["a"][0]) or 0):
+            k = op_const(c["a"][1])
+        if k is None or not isinstance(k[0], int) or c["t"] is None:
+            continue
+        region = fn.reachable_from([c["t"]]) - eb
+        if c["t"] not in region:
+            continue
+        seqs, opaque = sequences(fn, c["t"], region, "w", bl, fail_blocks=eb)
+        prev = out.get(k[0])
+        out[k[0]] = (seqs | prev[0], opaque or prev[1]) if prev else (seqs, opaque)
+    return out
+
+
+def reader_markers(fn):
+    """{c: (set of sequences of the arm taken when the byte just read equals c, opaque)}; only the first
+    switch on a value read with read_u8 / a byte load is used"""
+    from rules.variant import arm_region
+    eb = err_blocks(fn)
+    bl = buffer_locals(fn)
+    srcs = set()
+    for b, c in fn.calls():
+        f = c["f"]
+        alias = c.get("st", "") or ""
+        if f.rsplit("::", 1)[-1] == "read_u8" or alias.endswith("read_u8"):
+            srcs.add(c["d"][0])
+    if not srcs:
+        return {}
+    fw = fn.forward_locals(srcs, call_through=lambda c: c["f"].endswith("::branch") or c["f"].endswith("::from_output"))
+    best = {}
+    order = {b: i for i, b in enumerate(fn.rpo())}
+    for b in sorted(fn.blocks(), key=lambda x: order.get(x, 0)):
+        t = fn.term(b)
+        if t[0] != "sw" or len(t[2]) < 2:
+            continue
+        l = op_local(t[1])
+        if l is None or l not in fw or fn.ty(l) != "u8":
+            continue
+        allt = {tgt for _, tgt in t[2]} | {t[3]}
+        for v, tgt in t[2]:
+            region = arm_region(fn, b, tgt, allt) - eb
+            if tgt not in region:
+                best[int(v)] = (set(), False)
+                continue
+            seqs, opaque = sequences(fn, tgt, region, "r", bl, fail_blocks=eb)
+            best[int(v)] = (seqs, opaque)
+        break
+    return best
+
+
+def compare_markers(ctx, rule, label, wfn, rfn):
+    """per one-byte marker value written as a constant: what the writer emits after it is exactly what every
+    successful path of the reader's arm for that value consumes"""
+    wm, rm = writer_markers(wfn), reader_markers(rfn)
+    n = 0
+    for c in sorted(set(wm) & set(rm)):
+        ws = {strong(w) for w in wm[c][0]}
+        rs = {strong(r) for r in rm[c][0]}
+        if wm[c][1] or rm[c][1] or not ws or not rs:
+            continue
+        wmax = {w for w in ws if not any(w != x and is_prefix(w, x) for x in ws)}
+        n += 1
+        missing = [w for w in wmax if w not in rs]
+        short = [r for r in rs if r not in ws]
+        ok = not missing and not short
+        ctx.obligation(rule, wfn.id, "%s marker %d" % (label, c), ok,
+                       sample={"pair": label, "marker": c, "writer_after_marker": [fmt(w) for w in sorted(wmax)][:3],
+                               "reader_arm": [fmt(r) for r in sorted(rs)][:3]})
+        if not ok:
+            w = (missing or sorted(wmax))[0]
+            r = (short or sorted(rs))[0]
+            ctx.violation(rule, rfn.id, "%s marker %d" % (label, c),
+                          "after the marker byte %d the writer emits %s but a successful path of the reader's arm for %d "
+                          "consumes %s: the following fields are read from the wrong position" % (c, fmt(w), c, fmt(r)),
+                          rfn.file, rfn.line)
+    return n
